@@ -9,6 +9,7 @@ import os
 from .. import classify, drive, env, hist, world
 from ..oracle import refhash, xmlread
 
+TECHNIQUE = 'runtime monitoring: write/read-back round trip compared field by field with the tool reader and an independent expat reader; icontract postconditions on the real classes while the repository tests run'
 LEVEL = "exploration"
 RULE = (
     "case = model level: MHLHashList / MHLChain built through the public constructors with text drawn from alphabets with "
